@@ -58,6 +58,7 @@ var vhW *vhWorldBGP
 func vhDial() (net.Conn, error) {
 	w := vhW
 	w.dials++
+	time.Sleep(time.Millisecond) // establishing a connection takes time: the others run meanwhile
 	if w.dialFails > 0 {
 		w.dialFails--
 		return nil, errors.New("connection refused")
@@ -140,12 +141,12 @@ func (c *vhPeerConn) drop() {
 	}
 }
 
-func (c *vhPeerConn) Close() error                       { c.drop(); return nil }
-func (c *vhPeerConn) LocalAddr() net.Addr                { return &net.TCPAddr{IP: net.IP{10, 0, 0, 9}, Port: 40000} }
-func (c *vhPeerConn) RemoteAddr() net.Addr               { return &net.TCPAddr{IP: net.IP{10, 0, 0, 1}, Port: 179} }
-func (c *vhPeerConn) SetDeadline(time.Time) error        { return nil }
-func (c *vhPeerConn) SetReadDeadline(time.Time) error    { return nil }
-func (c *vhPeerConn) SetWriteDeadline(time.Time) error   { return nil }
+func (c *vhPeerConn) Close() error                     { c.drop(); return nil }
+func (c *vhPeerConn) LocalAddr() net.Addr              { return &net.TCPAddr{IP: net.IP{10, 0, 0, 9}, Port: 40000} }
+func (c *vhPeerConn) RemoteAddr() net.Addr             { return &net.TCPAddr{IP: net.IP{10, 0, 0, 1}, Port: 179} }
+func (c *vhPeerConn) SetDeadline(time.Time) error      { return nil }
+func (c *vhPeerConn) SetReadDeadline(time.Time) error  { return nil }
+func (c *vhPeerConn) SetWriteDeadline(time.Time) error { return nil }
 
 // decode interprets one BGP message (the session writes whole messages) like a peer building its table.
 func (c *vhPeerConn) decode(b []byte) {
@@ -379,20 +380,46 @@ func VerifSession(steps, mode, fault int) {
 			w.mu.Unlock()
 		}
 	}
+	kinds := make([]int, steps)
+	for i := range kinds {
+		kinds[i] = vr.Choose(3)
+	}
+	dropped := false
 	for i := 0; i < steps; i++ {
-		switch vr.Choose(3) {
+		switch kinds[i] {
 		case 0: // a new route set is requested (possibly empty, possibly only attributes change)
 			// menu: {}, {p0,p1} plain, {p0,p1} with other attributes (attribute-only change),
 			// {p1,p2} with those attributes (p1 unchanged, p0 withdrawn, p2 new), {p0} plain,
 			// {p0,p1} with those attributes minus the community
 			k := vr.Choose(6)
 			last = vhSet([]int{0, 3, 3, 6, 1, 3}[k], []int{0, 0, 1, 1, 0, 2}[k])
+			if vr.RaceRetry() && i+1 < steps && kinds[i+1] == 1 {
+				// native race retry: the Set and the drop of the next step arrive while the session lock is
+				// held (as by a sender in the middle of a batch); the session notices the drop before its
+				// sender processes the new set - one of the orders the engine explores
+				s := sess.(*session)
+				s.mu.Lock()
+				done := make(chan error, 1)
+				go func() { done <- sess.Set(last...) }()
+				time.Sleep(30 * time.Millisecond)
+				lock()
+				if n := len(w.conns); n > 0 {
+					w.conns[n-1].drop()
+				}
+				unlock()
+				dropped = true
+				time.Sleep(30 * time.Millisecond)
+				s.mu.Unlock()
+				vr.Assert(<-done == nil, "Set failed")
+				break
+			}
 			vr.Assert(sess.Set(last...) == nil, "Set failed")
 		case 1: // the peer drops the current connection
 			lock()
-			if n := len(w.conns); n > 0 {
+			if n := len(w.conns); n > 0 && !dropped {
 				w.conns[n-1].drop()
 			}
+			dropped = false
 			if vr.Bool() {
 				// ... and refuses the next two connection attempts: the session notices the loss and
 				// waits in its back-off; what the environment does next happens while the session is down
